@@ -81,6 +81,7 @@ Terminal == ~EagerEnabled /\ ~ENABLED Controlled
 
 Tags == UNION {VerdictsL(sent[s], from[s], lo) : s \in Streams}
         \cup (IF Mon_StoredDispatched THEN {} ELSE {"StoredButNeverDispatched"})
+        \cup (IF Mon_BeforeStart THEN {} ELSE {"BeforeStart"})
         \cup {m \in {"LiveComplete", "PutNeverWaitsOnConsumer", "OthersServed"} :
                 \/ m = "OthersServed" /\ ~Mon_ReplacementServed
                 \/ m = "LiveComplete" /\ ~Mon_LiveComplete
